@@ -4,7 +4,7 @@
    md_view = the metadata of an id with None and the empty dict identified. *)
 From Coq Require Import List ZArith Bool Sorted.
 From BiomV Require Import Base.Tree Base.ListUtil Base.Matrix Model.Table Model.Orient Model.Concat
-  Proofs.OrientProofs Proofs.ConcatProofs.
+  Proofs.OrientProofs Proofs.ConcatProofs Gen.CatPrelude Gen.ConcatGen Proofs.GenBridgeConcatProofs.
 Import ListNotations.
 
 (* refused with DisjointIDError exactly when two operands share an id on the concatenation axis *)
@@ -102,3 +102,25 @@ Proof.
   split; [vm_compute; reflexivity|].
   exists 0%nat, 2%nat, exA, exA, 110. simpl. repeat split; auto.
 Qed.
+
+(* ---- translator tie (tools/py2v_cat): Gen/ConcatGen.v is regenerated from Table.concat of biom/table.py on
+   every check; the translated front of the method (normalising `others`, the axis test, the accumulating
+   disjointness check and its error, the union of the other axis' ids with the metadata remembered per id,
+   the common order) is what Model/Concat.v computes there, for operands that do not repeat an id on the
+   other axis ---- *)
+Theorem gen_concat_scan_is_source_partial : forall (self : table) (others : others_arg) (a : axis),
+  Forall (fun t => NoDup (ids (other a) t)) (self :: normalise_others others) ->
+  gen_concat_scan self others a = scan_source self others a.
+Proof. exact GenBridgeConcatProofs.gen_concat_scan_is_source_partial. Qed.
+Print Assumptions gen_concat_scan_is_source_partial.
+
+Theorem concat_t_scan_is_source_partial : forall (self : table) (others : others_arg) (a : axis),
+  Forall (fun t => NoDup (ids (other a) t)) (self :: normalise_others others) ->
+  concat_t (self :: normalise_others others) a =
+  match gen_concat_scan self others a with
+  | ROk (all_tables, _, _, _, _, _, mdmap, order) =>
+      ROk (orient a (stack_rows order (ttype self) (map (pad_table order mdmap) (map (orient a) all_tables))))
+  | RErr c => RErr c
+  end.
+Proof. exact GenBridgeConcatProofs.concat_t_scan_is_source_partial. Qed.
+Print Assumptions concat_t_scan_is_source_partial.
